@@ -45,6 +45,13 @@ NA_PURE = {
  "C52": "evaluation order is single-execution language semantics; no fault or history involved",
 }
 
+# designed in DESIGN.md §7 but not claimed (DESIGN.md §13): nothing is asserted about these
+NA_UNCLAIMED = {
+ "C35": "not claimed: the designed check (sim/c35.go: renderings of every compiled program compared between VM replicas and between 16 worker processes under different CPU affinities, plus encode/decode of every emitted instruction) exists and runs quietly, but its wave of deliberate breakages (DESIGN.md §8) was not completed, so its power is unmeasured and nothing is asserted; the random-instruction and LEB128 half of the property is pure input generation and outside this technique",
+ "C44": "not claimed: the check was not built (the corpus of ledgers written by the pinned commit, DESIGN.md §7 C44, was never generated); the encode/decode round-trip half of the property is a pure function of the value and outside this technique",
+ "C51": "the collections are pure in-memory functions of the operation sequence: no schedule, clock, I/O, fault or history is involved (the interval tree's math/rand priorities only change the tree shape); that is a model-based property test, not a simulation target. A seeded model comparison exists as a development aid (sim/c51.go; it led to fix 27e5e94) but is not claimed",
+}
+
 def main():
     props = [json.loads(l) for l in open(os.path.join(ROOT, "properties.jsonl"))]
     ids = [p["id"] for p in props]
@@ -72,6 +79,8 @@ def main():
             })
         elif i in NA_PURE:
             na.append({"property_id": i, "reason": NA_PURE[i]})
+        elif i in NA_UNCLAIMED:
+            na.append({"property_id": i, "reason": NA_UNCLAIMED[i]})
         else:
             na.append({"property_id": i, "reason": "not claimed yet: the check for this property is still being built (see DESIGN.md §7); nothing is asserted about it"})
     hooks_commits = subprocess.run(["git", "-C", "/repo", "log", "--format=%H", "--grep=^verif:"], capture_output=True, text=True).stdout.split()
